@@ -221,6 +221,11 @@ def _valid_buffers():
         out[f"v{m}"] = R.encode_legacy(m, lrecs)
         out[f"v{m}gz"] = R.encode_legacy(m, lrecs, compressed=True)
     out["mixed"] = out["v1"] + v2 + out["v0gz"]
+    out["v2snappy"] = R.encode_v2(10, recs, codec=2)
+    out["v2lz4"] = R.encode_v2(10, recs, codec=3)
+    out["v2zstd"] = R.encode_v2(10, recs, codec=4)
+    out["v1snappy"] = R.encode_legacy(1, lrecs, compressed=True, codec=2)
+    out["v1lz4"] = R.encode_legacy(1, lrecs, compressed=True, codec=3)
     return out
 
 
@@ -353,6 +358,44 @@ def m2_hostile_inner_lengths(src, magic, ninner):
     _compiled_outcome(src, data, f"v{magic} wrapper", desc)
 
 
+def m3_hostile_block_lengths(src, which):
+    """a snappy-compressed batch with valid outer checksums whose xerial stream carries boundary values in a
+    block-length field (or is cut): decoding terminates and fails cleanly"""
+    recs = [dict(offset=10, timestamp=100, key=b"k1", value=b"v" * 40, headers=[]),
+            dict(offset=11, timestamp=101, key=None, value=b"w" * 40, headers=[])]
+    payload = b"".join(R.encode_legacy_message(1, i, r["timestamp"], r["key"], r["value"]) for i, r in enumerate(recs)) if which == "v1" \
+        else b"".join(R.encode_v2_record(i, i, r["key"], r["value"], []) for i, r in enumerate(recs))
+    half = len(payload) // 2
+    stream = bytearray(R.xerial_encode(payload, blocksize=half + 1))  # two blocks
+    first_len = struct.unpack_from(">i", stream, 16)[0]
+    fields = [16, 16 + 4 + first_len]
+    k = src.choice("block", 2)
+    v = [-(2 ** 31), -8, -5, -4, -3, -2, -1, 0, 1, first_len + 1, 2 ** 31 - 1][src.choice("length", 11)]
+    struct.pack_into(">i", stream, fields[k], v)
+    cut = [0, 1, 4][src.choice("stream_cut", 3)]
+    if cut:
+        del stream[len(stream) - cut:]
+    if which == "v1":
+        data = R.encode_legacy_message(1, 11, 101, None, bytes(stream), attrs=2)
+    else:
+        hdr_and = struct.pack(">hiqqqhii", 2, 1, 100, 101, -1, -1, -1, 2) + bytes(stream)
+        data = struct.pack(">qiibI", 10, 4 + 1 + 4 + len(hdr_and), -1, 2, R.crc32c(hdr_and)) + hdr_and
+    desc = f"{which} snappy stream, block {k} length {v}, cut {cut}"
+    try:
+        res = _decode_all(data)
+        outcome = "runaway" if res == "runaway" else "ok"
+    except (MemoryError, SystemError, RecursionError) as e:
+        outcome = "internal " + type(e).__name__
+    except Exception as e:  # noqa: BLE001
+        outcome = "raises " + type(e).__name__
+    src.note({"mutation": desc, "outcome": outcome})
+    ok = outcome != "runaway" and not outcome.startswith("internal")
+    if src.twin:
+        ok = not ok
+    src.check(ok, f"pure-Python decoder: {outcome} on a compressed batch with a hostile block length ({desc})", mutation=desc)
+    _compiled_outcome(src, data, which + " snappy", desc)
+
+
 def prepare(tier):
     return CX.prepare()
 
@@ -396,7 +439,13 @@ def harnesses(tier):
                           bounds={"inner_messages": 2},
                           note="concrete; both the pure-Python decoder and (witness replay) the compiled decoder built from the current .pyx",
                           max_seconds=300, twin_max_paths=30))
-    for which in (["v2", "v1gz", "mixed"] if q else list(BUFFERS)):
+    for which in ("v1", "v2"):
+        hs.append(Harness(name=f"M3_hostile_block_lengths_{which}", fn=m3_hostile_block_lengths, params={"which": which},
+                          functions=[_LegacyRecordBatchPy._decompress, _DefaultRecordBatchPy._maybe_uncompress], shape="U",
+                          symbolic_vars="finite-domain choices: which xerial block-length field, boundary value written into it, stream cut",
+                          bounds={"blocks": 2}, note="concrete; pure-Python decoder under a CPU-time watchdog + compiled witness replay",
+                          max_seconds=300, twin_max_paths=30))
+    for which in (["v2", "v1gz", "mixed", "v2snappy", "v1lz4"] if q else list(BUFFERS)):
         hs.append(Harness(name=f"M1_mutations_{which}", fn=m1_mutations, params={"which": which},
                           functions=[_MemoryRecordsPy._cache_next, _MemoryRecordsPy.next_batch, _DefaultRecordBatchPy._read_msg,
                                      _DefaultRecordBatchPy.__next__, _LegacyRecordBatchPy.__iter__, _LegacyRecordBatchPy._decompress],
